@@ -43,6 +43,8 @@ func takeRateState(tok0 math.Int, rate math.LegacyDec, second int) (*env.Env, ti
 		mk(Denoms[1], math.NewInt(5000), math.LegacyNewDecWithPrec(5, 1), time.Unix(THi+1000, 0).UTC())
 	case 3: // nothing staked
 		mk(Denoms[1], math.ZeroInt(), math.LegacyNewDecWithPrec(5, 1), t0.Add(-time.Hour))
+	case 4: // a dust-only asset (skipped by the "<= 1" guard) that is processed BEFORE the charged one
+		mk(DustDenom, math.OneInt(), math.LegacyNewDecWithPrec(5, 1), t0.Add(-time.Hour))
 	}
 	return e, t0, p
 }
@@ -85,7 +87,7 @@ func H_C09_clock_X() {
 // assets with rate 0, in warm-up or without stake are not charged.
 func H_C09_transfer() {
 	id := "C09.transfer"
-	second := nd.Choice("second", 4)
+	second := nd.Choice("second", 5)
 	tok := nd.IntRange("T", "1", Pow30)
 	rate := nd.DecRange("rate", "0.000000000000000001", "0.999999999999999999")
 	e, t0, p := takeRateState(tok, rate, second)
@@ -95,8 +97,12 @@ func H_C09_transfer() {
 	e.WithBlock(t1, 101)
 	fee := e.Ak.GetModuleAddress("fee_collector")
 	var pre2 types.AllianceAsset
+	other := Denoms[1]
+	if second == 4 {
+		other = DustDenom
+	}
 	if second != 0 {
-		pre2, _ = e.K.GetAssetByDenom(e.Ctx, Denoms[1])
+		pre2, _ = e.K.GetAssetByDenom(e.Ctx, other)
 	}
 	var err error
 	nd.Reach(id)
@@ -106,13 +112,23 @@ func H_C09_transfer() {
 	nd.Assert(id+".ok", err == nil)
 	a, _ := e.K.GetAssetByDenom(e.Ctx, Denoms[0])
 	nd.Assert(id+".range", nd.And(a.TotalTokens.GTE(math.OneInt()), a.TotalTokens.LTE(tok)))
+	// the charged total is what the compounding formula gives, whatever else is in the asset list:
+	// n whole intervals, multiplier (1-r)^n, floor - unless that would leave <= 1 unit
+	due := t1.After(p.LastTakeRateClaimTime.Add(p.TakeRateClaimInterval))
+	if due {
+		n := uint64(t1.Sub(p.LastTakeRateClaimTime) / p.TakeRateClaimInterval)
+		want := math.LegacyOneDec().Sub(rate).Power(n).MulInt(tok)
+		nd.Assert(id+".formula", a.TotalTokens.Equal(nd.IteInt(want.LTE(math.LegacyOneDec()), tok, want.TruncateInt())))
+	} else {
+		nd.Assert(id+".formula", a.TotalTokens.Equal(tok))
+	}
 	moved := tok.Sub(a.TotalTokens)
 	nd.Assert(id+".exact", nd.And(e.Bank.Balance(fee, Denoms[0]).Equal(moved), moduleBal(e, Denoms[0]).Equal(a.TotalTokens)))
 	nd.Assert(id+".shares", a.TotalValidatorShares.Equal(math.LegacyNewDecFromInt(tok)))
 	if second != 0 {
-		b, _ := e.K.GetAssetByDenom(e.Ctx, Denoms[1])
-		nd.Assert(id+".exempt", nd.And(b.TotalTokens.Equal(pre2.TotalTokens), e.Bank.Balance(fee, Denoms[1]).IsZero(),
-			moduleBal(e, Denoms[1]).Equal(pre2.TotalTokens)))
+		b, _ := e.K.GetAssetByDenom(e.Ctx, other)
+		nd.Assert(id+".exempt", nd.And(b.TotalTokens.Equal(pre2.TotalTokens), e.Bank.Balance(fee, other).IsZero(),
+			moduleBal(e, other).Equal(pre2.TotalTokens)))
 	}
 }
 
